@@ -1,6 +1,7 @@
 """C06 strict vs non-strict: proof (Props/C06.v: single decision point, diagnostic position, simulation lemmas) +
 correspondence of the parser model in BOTH modes (model, diagnostics with line, written text) + oracle on the
 implementation: the four relations of the property between load(T, strict) and load(T, non-strict)."""
+import re
 import framework as fw
 import sx
 import docgen
@@ -65,6 +66,20 @@ def gen_texts(rng, tier):
             else:
                 inner = ' '.join(items)
             texts.append(('a2ml-strings', c18.document('block "IF_DATA" ' + body + ';', ['/begin IF_DATA ' + (frame % inner) + ' /end IF_DATA'])))
+    # an A2ML block that the library's A2ML parser rejects (no IF_DATA anywhere, so the two modes must relate exactly):
+    # alone, behind / in front of a MODULE whose A2ML block is fine, and with a specification passed by the caller
+    good_aml = ['block "IF_DATA" taggedunion { "V" struct { uint; char[8]; }; };', 'struct S { uint; uchar; }; block "IF_DATA" struct S;',
+                'enum E { "A" = 1, "B" = 2 }; block "IF_DATA" taggedstruct { "X" enum E; ("Y" uint)*; };']
+    bad_aml = ['struct S { uint; ', 'struct { uint; } ;;; }', 'taggedstruct G { "X" uint };', 'enum E { "A" = , };', '}', 'struct S { bogus_type; };',
+               'block "IF_DATA" taggedunion { "V" struct { uint; char[8] }; };', 'struct S { uint; };']
+    def module(name, aml):
+        return '/begin MODULE %s "" %s /end MODULE' % (name, ('/begin A2ML %s /end A2ML' % aml) if aml is not None else '')
+    for trial in range(10 if tier == 'quick' else 200):
+        g_, b_ = rng.choice(good_aml), rng.choice(bad_aml)
+        for mods, spec in (([('m', b_)], None), ([('m1', g_), ('m2', b_)], None), ([('m1', b_), ('m2', g_)], None),
+                           ([('m', b_)], g_), ([('m1', None), ('m2', b_)], g_), ([('m1', g_), ('m2', None), ('m3', b_)], None)):
+            text = 'ASAP2_VERSION 1 71 /begin PROJECT p "" ' + ' '.join(module(n, a) for n, a in mods) + ' /end PROJECT'
+            texts.append(('a2ml-broken' if spec is None else ('a2ml-broken', spec), text))
     # token-level mutations of valid documents
     m = 80 if tier == 'quick' else 15000
     for i in range(m):
@@ -92,8 +107,11 @@ def gen_cases(rng, tier):
     cases = []
     for kind, text in gen_texts(rng, tier):
         i = len(cases)
-        cases.append({'text': text, 'strict': True, 'kind': kind, 'pair': i + 1})
-        cases.append({'text': text, 'strict': False, 'kind': kind, 'pair': i})
+        spec = None
+        if isinstance(kind, tuple):
+            kind, spec = kind
+        cases.append({'text': text, 'strict': True, 'kind': kind, 'pair': i + 1, 'spec': spec})
+        cases.append({'text': text, 'strict': False, 'kind': kind, 'pair': i, 'spec': spec})
     return cases
 
 
@@ -120,7 +138,7 @@ def oracle(c, r, cases, res):
         d = loadlib.veq(S.node, N.node)
         if d:
             return 'both modes succeed without warnings but the models differ at %s' % d
-    if 'IF_DATA' not in c['text']:
+    if not re.search(r'/begin\s+IF_DATA', c['text']):
         n_problem = (not n_ok) or any(v not in DEPRECATION for v in variants(N))
         if (not s_ok) != n_problem:
             return ('strict %s although non-strict %s' % ('fails' if not s_ok else 'succeeds',
@@ -165,7 +183,7 @@ def replay(r):
     import checks.c06 as me
     c = dict(r['prop_case'])
     impl = fw.build_harness()
-    res, _ = loadlib.run_impl([(c['text'], True, None, 0), (c['text'], False, None, 0)], impl)
+    res, _ = loadlib.run_impl([(c['text'], True, c.get('spec'), 0), (c['text'], False, c.get('spec'), 0)], impl)
     cases = [dict(c, strict=True, pair=1), dict(c, strict=False, pair=0)]
     why = oracle(cases[0], res[0], cases, res)
     print('strict:', res[0].status, res[0].diag_list() if res[0].status == 'OK' else sx.pretty(res[0].err))
